@@ -58,9 +58,9 @@ pub fn run(args: &Args, sink: &mut Sink, rng: &mut Rng) {
         specs.push(pool.spec(rng, false));
     }
     let mut s_ser = Stream::new("ser", REQ, "chk_ser", "treemap * list (bitmap * list N)", "list N * N");
-    s_ser.shard = 150;
+    s_ser.shard = 200;
     let mut s_de = Stream::new("de", REQ, "chk_de", "list N * list (bitmap * list N)", "outcome treemap");
-    s_de.shard = 150;
+    s_de.shard = 600;
     for sp in &specs {
         let t = build(sp);
         let mut bytes = vec![];
@@ -85,8 +85,8 @@ pub fn run(args: &Args, sink: &mut Sink, rng: &mut Rng) {
 
         // deserialize: the valid bytes, and damaged variants of the container layout
         let mut variants: Vec<(&str, Vec<u8>)> = vec![("valid", bytes.clone())];
-        if rng.chance(1, 2) || sp.len() <= 1 {
-            for cut in [0usize, 1, 3, 4, 5, 8, 11, 12, 13] {
+        if rng.chance(1, 3) || sp.is_empty() {
+            for cut in [0usize, 3, 4, 7, 8, 11, 12] {
                 if cut < bytes.len() {
                     variants.push(("truncated-head", bytes[..cut].to_vec()));
                 }
